@@ -249,3 +249,34 @@ theorem compatL_lookup (l r : Tbl) (k : Nat) (v w : Cfg) (h : compatL l r = true
     · simp [lookup, hkk] at hl; exact ih h.2 hl
 
 end ForML.Conf
+
+/-! ### the same source once more (R5): `merge` is idempotent in its right argument, path by path -/
+namespace ForML.Conf
+
+theorem mergeList_idem (xs ys : List Nat) : mergeList (mergeList xs ys) ys = mergeList xs ys := by
+  simp only [mergeList, List.filter_append, List.filter_filter]
+  have h1 : ys.filter (fun v => !ys.contains v) = [] := by
+    simp [List.filter_eq_nil_iff]
+  rw [h1, List.nil_append]
+  congr 1
+  apply List.filter_congr
+  intro v _
+  cases ys.contains v <;> rfl
+
+theorem mergeList_self (ys : List Nat) : mergeList ys ys = ys := by
+  simp [mergeList, List.filter_eq_nil_iff]
+
+theorem stepLeaf_idem (acc oc : Option Leaf) (u : Bool) :
+    stepLeaf (stepLeaf acc oc u) oc u = stepLeaf acc oc u := by
+  cases oc with
+  | none => cases u <;> simp [stepLeaf]
+  | some l =>
+    cases l with
+    | scalar v => simp [stepLeaf]
+    | table => simp [stepLeaf]
+    | list ys =>
+      cases acc with
+      | none => simp [stepLeaf, mergeList_self]
+      | some a => cases a <;> simp [stepLeaf, mergeList_idem, mergeList_self]
+
+end ForML.Conf
